@@ -54,7 +54,7 @@ class Section(dict):
 
         if self.imports:
             for pkgname in self.imports:
-                result.append('%import ' + pkgname)
+                result.append('%import ' + pkgname.replace('$', '$$'))
             result.append('')
 
         if self.type:
@@ -68,6 +68,8 @@ class Section(dict):
         lst = sorted(self.items())
         for name, values in lst:
             for value in values:
+                # the parser turned '$$' into '$'; undo that
+                value = value.replace('$', '$$')
                 result.append(f'{pre}{name} {value}')
 
         if self.sections and self:
